@@ -4,7 +4,9 @@ CONSTANTS
   Tampers <- MCTamperPairs
   Flags <- MCFlags
   Anchors = {TRUE, FALSE}
+  Fallbacks = {"none"}
+  FailoverRule = "statement"
 SPECIFICATION Spec
-INVARIANTS TruthOrServfail NeverAlteredData ADImpliesSecure InsecureOnlyByProof NoAnchorFailsClosed ServfailHasEDE
+INVARIANTS TruthOrServfail NeverAlteredData VerdictIsFinal ADImpliesSecure InsecureOnlyByProof NoAnchorFailsClosed ServfailHasEDE
 PROPERTIES Terminates
 CHECK_DEADLOCK FALSE
